@@ -474,14 +474,14 @@ class FmtStr:
         ]
 
     def splitlines(self, keepends: bool = False) -> List["FmtStr"]:
-        """Return a list of lines, split on newline characters,
-        include line boundaries, if keepends is true."""
-        lines = self.split("\n")
-        return (
-            [line + "\n" for line in lines]
-            if keepends
-            else (lines if lines[-1] else lines[:-1])
-        )
+        """Return a list of lines, split at the line boundaries
+        str.splitlines uses; include them if keepends is true."""
+        lines = []
+        start = 0
+        for kept, line in zip(self.s.splitlines(True), self.s.splitlines()):
+            lines.append(self[start : start + len(kept if keepends else line)])
+            start += len(kept)
+        return lines
 
     # proxying to the string via __getattr__ is insufficient
     # because we shouldn't drop foreground or formatting info
